@@ -19,6 +19,9 @@ enum Case {
     BadLen { idx: Vec<u8>, s: usize },
     /// reverse translation of the i-th amino symbol
     Amino { i: usize },
+    /// depth-2 call sequences: prime with codon `c`, then query a related codon held in the SAME storage
+    /// (one scratch buffer rewritten in place) - state kept between calls must not leak into the answer
+    Pair { c: [u8; 3] },
 }
 
 fn gen(t: Tier, seed: u64, emit: &mut dyn FnMut(Case)) {
@@ -32,6 +35,13 @@ fn gen(t: Tier, seed: u64, emit: &mut dyn FnMut(Case)) {
                     emit(Case::Codon3 { c: [c0, c1, c2], s, ph: 0 });
                 }
                 emit(Case::Codon3 { c: [c0, c1, c2], s: 15, ph: 7 });
+            }
+        }
+    }
+    for c0 in 0..16u8 {
+        for c1 in 0..16u8 {
+            for c2 in 0..16u8 {
+                emit(Case::Pair { c: [c0, c1, c2] });
             }
         }
     }
@@ -75,6 +85,19 @@ fn expand(c: &[Iupac]) -> Vec<[u8; 3]> {
         }
     }
     v
+}
+
+/// what the property demands for a codon: Some(Ok(letter)) / Some(Err(kind)); None = only "does not panic"
+/// (three symbols with a gap among them)
+fn expected(c: &[Iupac]) -> Option<Result<u8, &'static str>> {
+    if c.len() != 3 {
+        return Some(Err("InvalidCodon"));
+    }
+    if c.iter().any(|a| set_of(*a) == 0) {
+        return None;
+    }
+    let aminos: std::collections::BTreeSet<u8> = expand(c).iter().map(|b| spec::ncbi_amino(b[0], b[1], b[2])).collect();
+    Some(if aminos.len() == 1 { Ok(*aminos.iter().next().unwrap()) } else { Err("AmbiguousTranslation") })
 }
 
 fn class(e: &TranslationError<Iupac, Amino>) -> &'static str {
@@ -173,6 +196,84 @@ fn run(c: &Case, out: &mut Out) {
             });
             out.dim("bad_len", content.len() as i64);
             out.observe(&(idx.len(), ok));
+        }
+        Case::Pair { c } => {
+            let iu = alphabet::<Iupac>();
+            let gap: Vec<Iupac> = iu.iter().copied().filter(|a| set_of(*a) == 0).collect();
+            let c1: Vec<Iupac> = syms::<Iupac>(c);
+            // the family of second queries
+            let mut fam: Vec<Vec<Iupac>> = vec![vec![], vec![c1[2]], c1[..2].to_vec(), c1[1..].to_vec(), vec![c1[2], c1[1], c1[0]], [&c1[..], &c1[..]].concat()];
+            for g in gap.iter().copied() {
+                for k in [1usize, 2, 3, 5, 13, 14] {
+                    fam.push(std::iter::repeat(g).take(k).chain(c1.iter().copied()).collect());
+                    fam.push(c1.iter().copied().chain(std::iter::repeat(g).take(k)).collect());
+                }
+            }
+            for pos in 0..3 {
+                for &x in &iu {
+                    if x != c1[pos] {
+                        let mut v = c1.clone();
+                        v[pos] = x;
+                        fam.push(v);
+                    }
+                }
+            }
+            out.stage = "try_to_amino(c1) then try_to_amino(c2) over the same storage";
+            let mut buf: Seq<Iupac> = Seq::with_capacity(64);
+            let mut ask = |content: &[Iupac], out: &mut Out, what: &str| {
+                let got = out.catch(|| {
+                    buf.clear();
+                    buf.extend(content.iter().copied());
+                    STANDARD.try_to_amino(&buf).map(|a| a.to_char() as u8).map_err(|e| class(&e))
+                });
+                let ok = match (&got, expected(content)) {
+                    (Err(_), _) => false,
+                    (Ok(_), None) => true,
+                    (Ok(g), Some(w)) => *g == w,
+                };
+                out.check(ok, || {
+                    (
+                        format!("STANDARD/try_to_amino/answer-depends-on-earlier-call [{what}]"),
+                        format!(
+                            "after try_to_amino({}) on the same buffer, try_to_amino({:?}) (length {}) = {:?}, expected {:?}",
+                            show(&c1),
+                            show(content),
+                            content.len(),
+                            got.as_ref().map(|r| r.map(|x| x as char)),
+                            expected(content).map(|r| r.map(|x| x as char))
+                        ),
+                    )
+                });
+            };
+            for c2 in &fam {
+                ask(&c1, out, "priming call");
+                ask(c2, out, if c2.len() == 3 { "second call, three symbols" } else { "second call, other length" });
+            }
+            // and over a slice of a longer parent at the same position (the parent rewritten in place)
+            let mut parent: Seq<Iupac> = std::iter::repeat(iu[iu.len() - 1]).take(5).chain(c1.iter().copied()).chain(std::iter::repeat(iu[1]).take(4)).collect();
+            for c2 in fam.iter().filter(|v| v.len() == 3) {
+                for (which, content) in [(0, &c1), (1, c2)] {
+                    let got = out.catch(|| {
+                        parent.truncate(5);
+                        parent.extend(content.iter().copied());
+                        parent.extend([iu[1], iu[2]]);
+                        STANDARD.try_to_amino(&parent[5..8]).map(|a| a.to_char() as u8).map_err(|e| class(&e))
+                    });
+                    let ok = match (&got, expected(content)) {
+                        (Err(_), _) => false,
+                        (Ok(_), None) => true,
+                        (Ok(g), Some(w)) => *g == w,
+                    };
+                    out.check(ok, || {
+                        (
+                            format!("STANDARD/try_to_amino/answer-depends-on-earlier-call [slice of a rewritten parent, call {which}]"),
+                            format!("after try_to_amino({}), try_to_amino({}) at the same position of the same parent = {:?}, expected {:?}", show(&c1), show(content), got.as_ref().map(|r| r.map(|x| x as char)), expected(content).map(|r| r.map(|x| x as char))),
+                        )
+                    });
+                }
+            }
+            out.dim("pair_family", fam.len() as i64);
+            out.observe(&(c, fam.len()));
         }
         Case::Amino { i } => {
             let al = alphabet::<Amino>();
@@ -276,7 +377,7 @@ fn main() {
         json!({
             "exhaustive": true,
             "first_touch": bsv::run::opt("first"),
-            "space": "16^3 IUPAC codons x 16 slice offsets (+1 non-zero parent head): exact clause on the 15^3 gap-free ones, no-panic on the rest; 21 amino symbols; lengths 0,1,2 exhaustively and 4,5,6,16,17 by the P(n) family for InvalidCodon",
+            "space": "16^3 IUPAC codons x 16 slice offsets (+1 non-zero parent head): exact clause on the 15^3 gap-free ones, no-panic on the rest; 21 amino symbols; lengths 0,1,2 exhaustively and 4,5,6,16,17 by the P(n) family for InvalidCodon; depth-2 call sequences: every one of the 16^3 codons as a priming call followed by each member of a family of related second queries (prefix/suffix, reversed, doubled, gap-padded front/back by 1,2,3,5,13,14, every single-position substitution) written into the same storage (a reused scratch buffer; a slice of a rewritten parent)",
             "oracle": "computed from NCBI table 1: expand the IUPAC codon to concrete codons via the IUPAC nomenclature",
         })
     });
